@@ -117,6 +117,13 @@ class SymFactory(object):
         c = self.cls(ref)
         return run_to_completion(self.ip.instantiate(c, list(args), kwargs))
 
+    def make(self, ref, args=(), kwargs=None, **fields):
+        """A pre-state object: created by the *real* constructor (so it carries every attribute a real object has),
+        then its fields are overwritten with the given (symbolic) contents.  Raw writes: property setters are not run."""
+        o = self.construct(ref, *args, **(kwargs or {}))
+        self.st.heap[o.oid].update(fields)
+        return o
+
     def setattr(self, obj, name, value):
         from .interp import run_to_completion
         run_to_completion(self.ip.setattr(obj, name, value))
@@ -378,6 +385,11 @@ class ConcFactory(object):
         with warnings.catch_warnings():
             warnings.simplefilter('ignore')
             return self.cls(ref)(*args, **kwargs)
+
+    def make(self, ref, args=(), kwargs=None, **fields):
+        o = self.construct(ref, *args, **(kwargs or {}))
+        o.__dict__.update(fields)
+        return o
 
     def setattr(self, obj, name, value):
         setattr(obj, name, value)
